@@ -32,7 +32,7 @@ POSITIONS = ['string', 'dstring', 'comment', 'inline_comment', 'identifier', 'op
 
 def trigger_text(trig, rng):
     if trig == 'CONVERT=':
-        return rng.choice(["CONVERT='BIG_ENDIAN'", 'CONVERT="LITTLE_ENDIAN"', "convert='big_endian'", 'CONVERT=x'])
+        return rng.choice(["CONVERT='BIG_ENDIAN'", "CONVERT='LITTLE_ENDIAN'", "convert='big_endian'", 'CONVERT=x'])
     if trig == 'NEWUNIT=':
         return rng.choice(['NEWUNIT=5', 'newunit=iu', 'NEWUNIT=u,'])
     if trig == '@PROCESS':
@@ -209,10 +209,22 @@ def comment_texts(ir):
     return out
 
 
+def _join_continuation(stmt):
+    """join free-form continuation lines (outside of character context)"""
+    out = ''
+    for ln in stmt.split('\n'):
+        t = ln.strip()
+        if t.startswith('&'):
+            t = t[1:].lstrip()
+        if t.endswith('&'):
+            t = t[:-1].rstrip() + ' '
+        out += t
+    return out.strip()
+
+
 def split_args(stmt):
     """arguments of an OPEN statement text (continuations joined), normalised"""
-    s = re.sub(r'&\s*\n\s*&?', '', stmt)
-    s = s.strip()
+    s = _join_continuation(stmt)
     m = re.match(r'open\s*\((.*)\)\s*$', s, re.I | re.S)
     if not m:
         return None
@@ -252,7 +264,7 @@ def split_args(stmt):
 
 def open_layout(stmt):
     """layout class of an OPEN statement: position of CONVERT=, NEWUNIT=, continuation"""
-    joined = re.sub(r'&\s*\n\s*&?', '', stmt)
+    joined = _join_continuation(stmt)
     m = re.match(r'\s*open\s*\((.*)\)\s*$', joined, re.I | re.S)
     keys = [a.split('=')[0].strip().lower() for a in re.split(r",(?=(?:[^'\"]|'[^']*'|\"[^\"]*\")*$)", m.group(1))] if m else []
 
@@ -262,11 +274,12 @@ def open_layout(stmt):
         i = keys.index(k)
         return 'first' if i == 0 else ('last' if i == len(keys) - 1 else 'middle')
     if pos('convert') == 'first':
-        return 'convert-first-argument'
+        return 'convert-first-argument' + (':statement-continued' if '&' in stmt else '')
     if 'convert' in keys and 'newunit' in keys:
         lines = stmt.split('\n')
+        cont = ':statement-continued' if '&' in stmt else ''
         if any('convert' in ln.lower() and 'newunit' in ln.lower() for ln in lines):
-            return 'convert-and-newunit-on-one-line'
+            return 'convert-and-newunit-on-one-line' + cont
         return 'convert-and-newunit-on-different-lines'
     cont = 'continued' if '&' in stmt else 'single-line'
     return f"newunit-{pos('newunit')}:convert-{pos('convert')}:{cont}"
@@ -327,7 +340,8 @@ def run_case(idx, rng, tier, ctx):
     bad_open = False
     for o in [x for x in c['opens'] if 'unit=17' not in x]:
         res['counters']['open_statements_checked'] = res['counters'].get('open_statements_checked', 0) + 1
-        osrc = f"subroutine s(iu, iv)\n  integer :: iu, iv\n{o}\nend subroutine s\n"
+        osrc = ("module omod\n  implicit none\ncontains\n  subroutine s(iu, iv)\n    integer :: iu, iv\n"
+                f"{o}\n  end subroutine s\nend module omod\n")
         lay = open_layout(o)
         try:
             onew = Sourcefile.from_source(osrc).to_fortran()
@@ -335,6 +349,13 @@ def run_case(idx, rng, tier, ctx):
             bad_open = True
             viol.append({'key': f'sanitize:open:parse-fails:{lay}', 'msg': f'{type(e).__name__}: {str(e)[:200]}',
                          'witness': {'source': osrc}})
+            continue
+        ok, why = diffexec.syntax_check(ctx['scratch'] / f'o{idx}', [('o.F90', onew)])
+        shutil.rmtree(ctx['scratch'] / f'o{idx}', ignore_errors=True)
+        if not ok:
+            bad_open = True
+            viol.append({'key': f'sanitize:open:regenerated-rejected-by-compiler:{lay}', 'msg': why[-300:],
+                         'witness': {'source': osrc, 'regenerated': onew}})
             continue
         if [split_args(o)] != [split_args(x) for x in open_stmts(onew)]:
             bad_open = True
@@ -368,6 +389,8 @@ def run_case(idx, rng, tier, ctx):
     # (b) literals, comments, identifiers
     got = string_literals(routine.body)
     res['counters']['oracle_checks'] += 1
+    if c['position'] == 'target' and c['trigger'] in STRING_MACROS:
+        got = [g for g in got if g != c['trigger']]
     if got != c['lits']:
         v('literal-changed', f"string literals {c['lits']} became {got}")
     gotc = comment_texts(routine.ir)
